@@ -11,6 +11,7 @@ import jobparams_common as jc  # noqa: E402
 
 from openjd.model import (  # noqa: E402
     DecodeValidationError, ParameterValue, ParameterValueType, StepParameterSpaceIterator, create_job, decode_environment_template, decode_job_template,
+    preprocess_job_parameters,
 )
 
 _SRC_CHARS = "".join(sorted({c for c in Path(G.__file__).read_text() if ord(c) > 127}))
@@ -138,7 +139,16 @@ class C09(core.PropBase):
                     vals.pop(p["name"], None)
                 else:
                     vals[p["name"]] = rng.choice(["many", "2.5", "", "7"])
-            yield {"doc": doc, "vals": vals, "envs": envs}
+            case = {"doc": doc, "vals": vals, "envs": envs}
+            if i % 6 == 2:
+                # the usual flow: preprocess_job_parameters() first, create_job() with the dict it returned — which the caller
+                # has touched in between (values replaced in place).  create_job checks what it is given, whatever its history.
+                good = {}
+                for p in doc["parameterDefinitions"]:
+                    t = p["type"]
+                    good[p["name"]] = str(p["default"]) if "default" in p else "a" if t in ("STRING", "PATH") else "2" if t == "INT" else "1.5"
+                case["pre"] = good
+            yield case
 
     def rule(self, tier):
         return ("templates with job parameters of all four types and INT / FLOAT / STRING / PATH task parameters whose ranges (lists and range expressions) mix "
@@ -162,10 +172,26 @@ class C09(core.PropBase):
         types = {p["name"]: p["type"] for p in case["doc"].get("parameterDefinitions") or []}
         try:
             ets = [decode_environment_template(template=G.deep(e)) for e in case.get("envs") or []] or None
+            if "pre" in case:
+                try:
+                    r = preprocess_job_parameters(job_template=jt, job_parameter_values=dict(case["pre"]), job_template_dir=Path(), current_working_dir=Path(),
+                                                  allow_job_template_dir_walk_up=True, environment_templates=ets)
+                except ValueError:
+                    r = None
+                if r is not None:
+                    for k, v in case["vals"].items():
+                        if k in r:
+                            r[k] = ParameterValue(type=r[k].type, value=v)
+                    job = create_job(job_template=jt, job_parameter_values=r, environment_templates=ets)
+                    return "ok", self.values_of(job)
             job = create_job(job_template=jt, job_parameter_values={k: ParameterValue(type=ParameterValueType(types[k]), value=v) for k, v in case["vals"].items() if k in types},
                              environment_templates=ets)
         except DecodeValidationError:
             return "skip", "create-rejected"
+        return "ok", self.values_of(job)
+
+    @staticmethod
+    def values_of(job):
         out = []
         for name, p in (job.parameters or {}).items():
             out.append(["job", p.type.value, p.value])
@@ -183,7 +209,7 @@ class C09(core.PropBase):
             if k not in seen:
                 seen.add(k)
                 uniq.append(x)
-        return "ok", uniq
+        return uniq
 
     def impl(self, case):
         if "_c" not in case:
